@@ -480,10 +480,17 @@ impl Workload {
                 .into();
         }
 
+        #[cfg(fontc_verif)]
+        let verif_about = format!("{success:?}");
         if let AnyWorkId::Fe(FeWorkIdentifier::Glyph(glyph_name)) = success {
             self.update_be_glyph_work(fe_root, glyph_name);
         }
 
+        #[cfg(fontc_verif)]
+        fontdrasil::verif::event(|| fontdrasil::verif::Ev::Snapshot {
+            about: verif_about,
+            text: self.verif_snapshot(),
+        });
         Ok(())
     }
 
@@ -620,6 +627,69 @@ impl Workload {
         names
     }
 
+    /// One line per pending id: `J <id> <kind> <running> <discriminant> <access>`, fields separated by
+    /// U+001F; access is `None` / `Unknown` / `All` or a U+001E-separated list of `I<id>` (specific
+    /// instance) and `V<discriminant>` (variant) dependencies; then `A <parent> <child>` per
+    /// also-completes entry and `C <discriminant> <count>` per counter.
+    #[cfg(fontc_verif)]
+    pub fn verif_snapshot(&self) -> String {
+        fn dep(t: &AccessType<AnyWorkId>) -> String {
+            match t {
+                AccessType::SpecificInstanceOfVariant(i) => format!("I{i:?}"),
+                AccessType::Variant(i) => format!("V{}", i.discriminant()),
+            }
+        }
+        fn acc<I: Identifier + Into<AnyWorkId>>(a: &Access<I>) -> String {
+            match a {
+                Access::None => "None".into(),
+                Access::Unknown => "Unknown".into(),
+                Access::All => "All".into(),
+                Access::SpecificInstanceOfVariant(i) => dep(&AccessType::SpecificInstanceOfVariant(i.clone().into())),
+                Access::Variant(i) => dep(&AccessType::Variant(i.clone().into())),
+                Access::Set(ids) => {
+                    let mut v: Vec<String> = ids
+                        .iter()
+                        .map(|t| match t {
+                            AccessType::SpecificInstanceOfVariant(i) => {
+                                dep(&AccessType::SpecificInstanceOfVariant(i.clone().into()))
+                            }
+                            AccessType::Variant(i) => dep(&AccessType::Variant(i.clone().into())),
+                        })
+                        .collect();
+                    v.sort();
+                    v.join("\u{1e}")
+                }
+            }
+        }
+        let mut lines = Vec::new();
+        for (id, j) in self.jobs_pending.iter() {
+            let kind = match &j.work {
+                AnyWork::AlsoComplete(..) if !j.running => "also",
+                AnyWork::Nop(..) => "nop",
+                _ => "work",
+            };
+            let a = match &j.read_access {
+                AnyAccess::Fe(a) => acc(a),
+                AnyAccess::Be(a) => acc(a),
+            };
+            lines.push(format!(
+                "J\u{1f}{id:?}\u{1f}{kind}\u{1f}{}\u{1f}{}\u{1f}{a}",
+                j.running as u8,
+                id.discriminant()
+            ));
+        }
+        for (parent, children) in self.also_completes.iter() {
+            for c in children {
+                lines.push(format!("A\u{1f}{parent:?}\u{1f}{c:?}"));
+            }
+        }
+        for (k, v) in self.count_pending.iter() {
+            lines.push(format!("C\u{1f}{k}\u{1f}{}", v.load(Ordering::Acquire)));
+        }
+        lines.sort();
+        lines.join("\n")
+    }
+
     #[cfg(fontc_verif)]
     pub fn verif_digest(&self) -> String {
         use std::hash::{Hash, Hasher};
@@ -684,6 +754,11 @@ impl Workload {
             // TODO timeout and die it if takes too long to make forward progress or we're spinning w/o progress
 
             // To avoid allocation every poll for work
+            #[cfg(fontc_verif)]
+            fontdrasil::verif::event(|| fontdrasil::verif::Ev::Snapshot {
+                about: String::new(),
+                text: self.verif_snapshot(),
+            });
             let mut launchable = Vec::with_capacity(512.min(self.job_count));
             let mut successes: Vec<(AnyWorkId, JobTime)> = Vec::with_capacity(64);
             let mut nth_wave = 0;
